@@ -29,6 +29,7 @@ import (
 
 	"github.com/mgtv-tech/redis-GunYu/config"
 	"github.com/mgtv-tech/redis-GunYu/pkg/redis/checkpoint"
+	"github.com/mgtv-tech/redis-GunYu/pkg/redis/client"
 	"github.com/mgtv-tech/redis-GunYu/pkg/vfdoubles"
 	"github.com/mgtv-tech/redis-GunYu/pkg/vfutil"
 )
@@ -382,6 +383,39 @@ func vfSqErrs(es []error) []bool {
 	return o
 }
 
+// option resumeFromBreakPoint = false (not bidirectional): newOutput leaves CheckpointName "" - the output keeps no
+// bookkeeping on the target. A failover inside the process still calls SetRunId(new id): nothing may be written to the
+// target (monitor setrunid-writes-without-checkpoint-name; the key "" and an entry of the checkpoint hash would be).
+func vfC17NoResume(t *testing.T, s *vfutil.Session, r *vfutil.Rand) {
+	old, new := vfSysId(r), vfSysId(r)
+	tg := vfdoubles.NewTarget()
+	tg.Seed(0, "set", "user", "1")
+	if r.Bool() {
+		tg.Seed(0, "set", "", "a user key with the empty name")
+	}
+	n0 := tg.LogLen()
+	var err error
+	var field string
+	synctest.Test(t, func(t *testing.T) {
+		ro := NewRedisOutput(RedisOutputConfig{InputName: "vf", CheckpointName: "", RunId: old, EnableResumeFromBreakPoint: false, Redis: checkpoint.VfRedisCfg()})
+		ro.newRedisConn = func(ctx context.Context) (client.Redis, error) { return checkpoint.VfConn(tg), nil }
+		err = ro.SetRunId(context.Background(), new)
+		field = ro.cfg.RunId
+		tg.CloseAll()
+	})
+	s.Count("cfg_resumeFromBreakPoint_false")
+	var ws []string
+	for _, e := range tg.LogCopy()[n0:] {
+		if l, ok := checkpoint.VfRenderWrite(e); ok {
+			ws = append(ws, l)
+		}
+	}
+	if len(ws) > 0 || err != nil || field != new {
+		s.Violate("setrunid-writes-without-checkpoint-name", fmt.Sprintf("resumeFromBreakPoint false, CheckpointName \"\": SetRunId(%s..) returned %v, cfg.RunId %s.., and issued %d write requests to the target: %v", new[:6], err, field[:6], len(ws), ws),
+			map[string]interface{}{"op": "c17noresume", "writes": len(ws)})
+	}
+}
+
 func TestVerifC17Seq(t *testing.T) {
 	s := vfutil.NewSession("C17sq")
 	defer s.Close()
@@ -405,6 +439,9 @@ func TestVerifC17Seq(t *testing.T) {
 		if seed, ok := vfSqParse(l); ok {
 			vfC17Seq(t, s, seed, &tag, "corpus")
 		}
+	}
+	for i := 0; i < 4; i++ {
+		vfC17NoResume(t, s, r.Fork())
 	}
 	for i, n := 0, vfutil.Scale(80, 800); i < n; i++ {
 		vfC17Seq(t, s, r.U64(), &tag, "gen")
